@@ -784,7 +784,9 @@ def collect_strings(prop, ctx, out, n_sample4=400, batch=200):
         r["deviate"] += len(res["fails"])
         for x in res["inconclusive"]:
             out.inconclusive.append("string %r as %s: %s" % (x["value"], x["role"], x["detail"]))
-    out.evaluations += programs
+    # one evaluation = one (value, rendering, role) case decided by comparing real executions of both pipelines
+    # (up to 200 cases share one pair of executions; the number of executed pairs is reported separately)
+    out.evaluations += passed + len(fails)
     for role in ROLES:
         for i, v in chosen:
             if nontrivial(v):
@@ -829,7 +831,7 @@ def collect_strings(prop, ctx, out, n_sample4=400, batch=200):
             pure[ks[0]]["deviating"] += 1
     cov = {"string_values_enumerated": len(values), "string_values_without_a_literal(end in backslash)":
            len(values) - len(rep), "string_values_probed": len(chosen), "string_extra_values_outside_alphabet": EXTRA_VALUES, "string_probes(value x rendering)": n_probes,
-           "string_probes_x_roles": n_probes * len(ROLES), "string_programs_executed": programs,
+           "string_probes_x_roles": n_probes * len(ROLES), "string_programs_executed(pipeline pairs)": programs,
            "string_probes_agreeing": passed, "string_probes_deviating": len(fails),
            "string_literals_rejected_by_compiler": len(rejected),
            "string_literals_rejected_as_expected(value ends in backslash; probes x roles)": rejected_expected,
